@@ -110,7 +110,8 @@ func iceserverUnmarshalOauth(val any) (*OAuthCredential, error) {
 }
 
 func (s *ICEServer) iceserverUnmarshalFields(fields map[string]any) error { //nolint:cyclop
-	if val, ok := fields["urls"]; ok {
+	// a nil URL list is encoded as null
+	if val, ok := fields["urls"]; ok && val != nil {
 		u, err := iceserverUnmarshalUrls(val)
 		if err != nil {
 			return err
